@@ -49,7 +49,7 @@ TRUSTED_EXTRA = ['harness/c18.py: ast visitor reading except clauses (fail-close
 
 PROP = 'C18'
 KF_CLEANUP, KF_EXIT, KF_BIGINT, KF_HANG = 'KF-C18-2', 'KF-C18-3', 'KF-C18-4', 'KF-C18-5'
-KF_NUL, KF_EMPTY_GLOB = 'KF-C18-8', 'KF-C18-10'
+KF_NUL = 'KF-C18-8'
 
 # ---------------------------------------------------------------------------------------------
 # exception classes of the model  (Coq constructor -> how to get the real class)
@@ -666,7 +666,10 @@ class Runner:
     def __init__(self, work, tag='run'):
         self.root = tempfile.mkdtemp(prefix='c18-%s-' % tag, dir=work)
         self.sbx = os.path.join(self.root, 'sbx')
+        self.io = os.path.join(self.root, 'io')  # captured stdout / stderr: out of the reach of the case
         os.makedirs(self.sbx)
+        os.makedirs(self.io)
+        self.odd = []  # cases after which their own directory was gone or changed unexpectedly
         self.mp = impl.main_program(self.sbx)
         self.n = 0
         self._old_stdin = os.dup(0)
@@ -704,7 +707,7 @@ class Runner:
         signal.alarm(limit)
         timed_out = False
         try:
-            pr = impl.run_main(self.mp, [case], d, d)
+            pr = impl.run_main(self.mp, [case], d, self.io)
         except _Timeout:
             timed_out = True
             pr = impl.ProgramRun(None, '', '', None)
@@ -716,6 +719,8 @@ class Runner:
             timed_out, pr = True, impl.ProgramRun(None, pr.out, pr.err, None)
         for fn in os.listdir(self.sbx):  # sandboxes are removed by the program; what a cut-off run leaves behind is ours
             shutil.rmtree(os.path.join(self.sbx, fn), ignore_errors=True)
+        if not os.path.exists(case):
+            self.odd.append(text)
         if not keep:
             shutil.rmtree(d, ignore_errors=True)
         return pr, timed_out, d
@@ -1066,6 +1071,7 @@ def run(ctx, res):
     finally:
         runner.close()
     res.evaluations = n
+    res.extra['cases_that_removed_their_own_file'] = runner.odd[:5]
     res.extra['disagreement_samples'] = [{'case': d.case, 'detail': d.detail} for d in res.disagreements[:5]]
     res.rule = RULE
     res.extra['route_table_rows'] = getattr(ctx, 'c18_route_rows', None)
@@ -2028,15 +2034,6 @@ def kf_bigint_pred(text):
     return False
 
 
-_EMPTY_STR_DEF = re.compile(r'^\s*def\s+string\s+(\S+)\s*=\s*(\'\'|"")\s*$', re.M)
-
-
-def kf_empty_glob_pred(text):
-    """`path` followed by an empty GLOB-PATTERN: '' or "" or a reference to a string symbol defined as the empty string"""
-    empties = ["''", '""'] + ['@[%s]@' % n for n, _ in _EMPTY_STR_DEF.findall(text)]
-    return any(re.search(r'(^|\s)path\s+%s(\s|$)' % re.escape(e), text) for e in empties)
-
-
 def kf_nul_pred(text):
     return '\x00' in text
 
@@ -2053,6 +2050,8 @@ def _parse_doc(text, path):
     import pathlib
     setup = TestCaseParsingSetup(instruction_name_and_argument_splitter.splitter, default_instructions_setup.INSTRUCTIONS_SETUP,
                                  ActPhaseParser())
+    import io
+    text = io.StringIO(text, newline=None).read()  # as _SourceReader reads the file: text mode, universal newlines
     try:
         return test_case_parser.new_parser(setup).apply(tcp.test_case_reference_of_source_file(pathlib.Path(path)),
                                                         ParseSource(text)), None
@@ -2169,7 +2168,7 @@ CORPUS_CASES = [
      '[assert]\nstdout matches @[EXACTLY_HOME]@\n', None),
     ('N7b the same through a path symbol and a string symbol, in a transformer',
      '[setup]\ndef path P = -rel-home d\ndef string C = @[P]@1\nfile f.txt = x -transformed-by replace @[C]@ y\n', None),
-    ('N8 empty glob pattern for the `path` file matcher (KF-C18-10)', "[assert]\nexists -rel-home d : path ''\n", KF_EMPTY_GLOB),
+    ('N8 empty glob pattern for the `path` file matcher (FIX-C18-6)', "[assert]\nexists -rel-home d : path ''\n", None),
     ('unknown instruction', '[setup]\nno-such-instruction x\n', None),
     ('unknown phase', '[nope]\nx\n', None),
     ('unterminated quote', "[setup]\nfile f.txt = 'abc\n", None),
@@ -2204,8 +2203,6 @@ def run_one_fuzz(runner, text, res, label):
     elif (exc is ValueError and 'integer string conversion' in str(pr.exception)
           or internal and last.startswith('ValueError: Exceeds the limit')) and kf_bigint_pred(text):
         finding = KF_BIGINT
-    elif internal and last.startswith('ValueError: empty pattern') and 'matches_glob_pattern.py' in pr.err and kf_empty_glob_pred(text):
-        finding = KF_EMPTY_GLOB
     elif (internal and last.startswith('ValueError: embedded null byte')
           or exc is ValueError and 'embedded null byte' in str(pr.exception)) and kf_nul_pred(text):
         finding = KF_NUL
